@@ -71,6 +71,8 @@ func checkC14(c *Ctx) {
 	c.Rule("R14.2", "representation: typed Field as is, first bare error via zap.Error, pairs via zap.Any; later bare errors reported (replay against the reference model)", 2)
 	c.Rule("R14.3", "routing table of the sugared methods: level, slots, helper", 21)
 	c.Rule("R14.4", "message construction: Sprintln minus its last byte; template / Sprintf / Sprint", 3)
+	c.Rule("R14.6", "the representation a string-keyed pair gets is zap.Any's documented choice: one arm per supported type calling the constructor of that type, structural interfaces (ObjectMarshaler, ArrayMarshaler) before error before Stringer, reflection only as the fallback", 60)
+	c.As(map[string]string{"R3.3": "R14.6"}, func() { c3Any(c) })
 	c.Rule("R14.5", "a bare error or an error value never vanishes: zap.Error/NamedError skip exactly the nil interface, nothing else", 2)
 	c3NilErrorR(c, "R14.5")
 
